@@ -11,58 +11,74 @@
    and Vis (the commit behaviour as built).  The design is Core /\ Vis; trace validation in contract mode
    takes Core and adopts the observed committed state instead of Vis.
 
-   Dev: "CloseNoCommit", "CommitOffByOne", "NoDescriptorCommit", "NoColumnEvolution" (sensitivity runs) *)
+   A database file outlives a writer: Reopen starts a new writer session on the same file (the new writer has seen no
+   descriptor yet and counts from zero, the tables and their rows are still there), so a table may have to evolve in a
+   LATER session than the one that created it.
+
+   Dev: "SessionSkipsEvolution" (the first descriptor of a name seen by a session only creates the table if it does not
+        exist, and never adds columns to one that does),
+        "CloseNoCommit", "CommitOffByOne", "NoDescriptorCommit", "NoColumnEvolution" (sensitivity runs) *)
 EXTENDS Naturals, Sequences, FiniteSets, TLC
-CONSTANTS MaxOps, Batches, Dev
+CONSTANTS MaxOps, Batches, Dev, MaxSess
 
 \* A, Aplus and Aplus2 share a table name and grow by one field each (the table evolves TWICE in one session);
 \* C is a type whose name begins with "sqlite" (SQLite's own tables begin with "sqlite_": the reader must not
 \* confuse the two)
 \* Aalt is as wide as A but swaps a field for another one (a version that gains a field WITHOUT becoming wider)
-Descs == {"A", "Aplus", "Aplus2", "Aalt", "B", "C"}
-NameOf(d) == CASE d = "B" -> "tb" [] d = "C" -> "tc" [] OTHER -> "ta"
+\* R has a field literally called "rowid" (a valid field name that is also SQLite's name for its implicit row id)
+McDescs == {"A", "Aplus", "Aplus2", "Aalt", "B", "C"}
+Descs == McDescs \cup {"R"}
+NameOf(d) == CASE d = "B" -> "tb" [] d = "C" -> "tc" [] d = "R" -> "tr" [] OTHER -> "ta"
 FieldsOf(d) == CASE d = "A" -> <<"a", "n">> [] d = "Aplus" -> <<"a", "n", "extra">> [] d = "Aplus2" -> <<"a", "n", "extra", "extra2">> [] d = "Aalt" -> <<"a", "alt">>
-                 [] d = "B" -> <<"q", "b", "ts", "p", "ip">> [] d = "C" -> <<"q">>
-Tables == {"ta", "tb", "tc"}
+                 [] d = "B" -> <<"q", "b", "ts", "p", "ip">> [] d = "C" -> <<"q">> [] d = "R" -> <<"rowid", "q">>
+Tables == {"ta", "tb", "tc", "tr"}
 
 VARIABLES cols,       \* table -> sequence of column names (<<>> = no such table)      [writer connection]
           rows,       \* table -> sequence of row ids in insert order                   [writer connection]
           ccols, crows,   \* committed: what another connection sees
           seen, count, batch, open, nw,   \* descriptors_seen, count, batch_size, con is not None, #records written
-          bounds      \* history: the record counts at which a commit is PERMITTED (batch boundaries)
-vars == <<cols, rows, ccols, crows, seen, count, batch, open, nw, bounds>>
-core == <<cols, rows, seen, count, batch, open, nw, bounds>>
+          bounds,     \* history: the record counts at which a commit is PERMITTED (batch boundaries)
+          sess        \* number of writer sessions on this file so far
+vars == <<cols, rows, ccols, crows, seen, count, batch, open, nw, bounds, sess>>
+core == <<cols, rows, seen, count, batch, open, nw, bounds, sess>>
 
 Init == /\ cols = [t \in Tables |-> <<>>] /\ rows = [t \in Tables |-> <<>>]
         /\ ccols = cols /\ crows = rows
-        /\ seen = {} /\ count = 0 /\ batch \in Batches /\ open = TRUE /\ nw = 0 /\ bounds = {0}
+        /\ seen = {} /\ count = 0 /\ batch \in Batches /\ open = TRUE /\ nw = 0 /\ bounds = {0} /\ sess = 1
 
 SeqToSet(q) == {q[i] : i \in DOMAIN q}
 AddCols(cs, fs) == IF "NoColumnEvolution" \in Dev /\ cs # <<>> THEN cs
                    ELSE cs \o SelectSeq(fs, LAMBDA f : f \notin SeqToSet(cs))
 
-NewCols(d) == IF d \notin seen THEN [cols EXCEPT ![NameOf(d)] = AddCols(@, FieldsOf(d))] ELSE cols
+NameSeen(d) == \E e \in seen : NameOf(e) = NameOf(d)
+NewCols(d) == IF d \notin seen /\ ~("SessionSkipsEvolution" \in Dev /\ ~NameSeen(d) /\ cols[NameOf(d)] # <<>>)
+              THEN [cols EXCEPT ![NameOf(d)] = AddCols(@, FieldsOf(d))] ELSE cols
 NewRows(d) == [rows EXCEPT ![NameOf(d)] = Append(@, nw + 1)]
 
 WriteCore(d) == /\ open /\ nw < MaxOps
                 /\ cols' = NewCols(d) /\ rows' = NewRows(d)
                 /\ seen' = seen \cup {d} /\ count' = count + 1 /\ nw' = nw + 1
                 /\ bounds' = bounds \cup (IF d \notin seen THEN {nw} ELSE {}) \cup (IF (count + 1) % batch = 0 THEN {nw + 1} ELSE {})
-                /\ UNCHANGED <<batch, open>>
+                /\ UNCHANGED <<batch, open, sess>>
 WriteVis(d) == LET hit == IF "CommitOffByOne" \in Dev THEN (count + 1) % batch = 1 % batch ELSE (count + 1) % batch = 0 IN
                IF hit THEN ccols' = NewCols(d) /\ crows' = NewRows(d)                       \* batch commit after the insert
                ELSE IF d \notin seen /\ "NoDescriptorCommit" \notin Dev
                     THEN ccols' = NewCols(d) /\ crows' = rows                              \* descriptor commit BEFORE the insert
                     ELSE UNCHANGED <<ccols, crows>>
-FlushCore == open /\ bounds' = bounds \cup {nw} /\ UNCHANGED <<cols, rows, seen, count, batch, open, nw>>
+FlushCore == open /\ bounds' = bounds \cup {nw} /\ UNCHANGED <<cols, rows, seen, count, batch, open, nw, sess>>
 FlushVis  == ccols' = cols /\ crows' = rows
-CloseCore == open /\ open' = FALSE /\ bounds' = bounds \cup {nw} /\ UNCHANGED <<cols, rows, seen, count, batch, nw>>
+CloseCore == open /\ open' = FALSE /\ bounds' = bounds \cup {nw} /\ UNCHANGED <<cols, rows, seen, count, batch, nw, sess>>
 CloseVis  == IF "CloseNoCommit" \in Dev THEN UNCHANGED <<ccols, crows>> ELSE ccols' = cols /\ crows' = rows
 
+\* a new writer on the same file, after the previous one was closed
+ReopenCore == /\ ~open /\ sess < MaxSess /\ open' = TRUE /\ seen' = {} /\ count' = 0 /\ sess' = sess + 1
+              /\ UNCHANGED <<cols, rows, batch, nw, bounds>>
+ReopenVis == UNCHANGED <<ccols, crows>>
+Reopen == ReopenCore /\ ReopenVis
 Write(d) == WriteCore(d) /\ WriteVis(d)
 Flush == FlushCore /\ FlushVis
 Close == CloseCore /\ CloseVis
-Next == (\E d \in Descs : Write(d)) \/ Flush \/ Close
+Next == (\E d \in Descs : Write(d)) \/ Flush \/ Close \/ Reopen
 Spec == Init /\ [][Next]_vars
 
 \* ---------------- C18 ----------------
@@ -79,6 +95,8 @@ AtBoundary == VisibleN \in bounds
 ClosedCommitted == ~open => (crows = rows /\ ccols = cols)
 \* one table per type name with a column for every field any same-name type has declared
 OneColumnPerField == \A d \in seen : SeqToSet(FieldsOf(d)) \subseteq SeqToSet(cols[NameOf(d)])
+\* ... and a column, once there, stays (also across sessions)
+ColumnsOnlyGrow == [][\A t \in Tables : IsPrefix(cols[t], cols'[t])]_vars
 \* visible rows always sit in a table that has all their columns
 VisibleSchemaOK == \A t \in Tables : crows[t] # <<>> => ccols[t] # <<>>
 \* visibility only changes in a step that is a permitted boundary (action property)
